@@ -196,6 +196,19 @@ CHECKS["C16"] = {
             "real MetricFlusher on top is covered by C01/C04 (healthy transport) and by the fresh request of the epilogue here",
     "technique": "TLC design check of the sender model + TLC trace validation of real sender/backends under TLC-generated fault schedules",
 }
+CHECKS["C19"] = {
+    "text": "EventPipeline.tla models the cloud stage's wait group (incremented before parking, decremented after forwarding), the backend "
+            "stage's wait group (+B per event), the event semaphore and WaitForEvents as cloud-wait-then-backend-wait, composed with the "
+            "EventProp monitor (offered => accepted, at most once per backend, fields, delivered with a live context, WaitForEvents sound); "
+            "TLC checks every interleaving for 3-4 events and refutes the swapped wait order. TLC-generated configurations x stimulus "
+            "schedules (event lines with their documented fields from Grammar!PLine, cache hit / miss / pending lookups, held backends, "
+            "HTTP-ingested events whose request context is cancelled on return, forwarder mode) drive the real parser -> cloud -> tag -> "
+            "backend pipeline and the real forwarder under virtual time; TLC validates the traces.",
+    "design_ref": "6/C19",
+    "note": "an event is accepted when the parser / HTTP endpoint dispatches it into the pipeline; a well-formed event offered but never "
+            "dispatched by quiescence is a violation; recording backends honour their context (ok = context alive at return)",
+    "technique": "TLC design check of the event pipeline model + TLC trace validation of the real event path under TLC-generated schedules",
+}
 NOT_APPLICABLE = [{"property_id": p, "reason": "check not built yet (build in progress; see DESIGN.md Appendix B for the order)"}
                   for p in ALL if p not in CHECKS]
 ENGINES[0]["serves_properties"] = sorted(CHECKS)
